@@ -37,7 +37,7 @@ OUTSIDE = ("np.histogram / np.histogram2d based clauses (range_histogram, histog
 RULE = ("one evaluation = one explored path; collective cases: sign/order pattern of from/to per row; histogram "
         "cases: one (source binning, target binning) pair with symbolic counts; distinct = distinct case and path "
         "signature; non-trivial = every path")
-LABELS = ["coll.upper_lower_amplitude", "coll.mean", "coll.R", "coll.cycles", "coll.range_mean_equiv",
+LABELS = ["rebin.source_order_independent", "rebin.target_level_order_independent", "coll.upper_lower_amplitude", "coll.mean", "coll.R", "coll.cycles", "coll.range_mean_equiv",
           "coll.scale", "coll.shift", "rebin.total", "rebin.identity", "rebin.compose", "combine.total",
           "combine.per_bin"]
 GRID = [0.0, 0.5, 1.0, 2.0, 3.0, 4.0]
@@ -81,6 +81,18 @@ def cases(tier):
         out.append({"kind": "rebin", "pairs": pairs[i:i + step], "_weight": 5})
     for src in bs[:: (3 if q else 1)]:
         out.append({"kind": "rebin_int", "src": src, "_weight": 1})
+    # source classes listed in a permuted order (e.g. after sort_values / concat): result must not depend on it
+    three = [b for b in bs if len(b) == 4] or [b for b in bs if len(b) == 3]
+    for src in three[:: (4 if q else 1)]:
+        m = len(src) - 1
+        for perm in list(itertools.permutations(range(m)))[1:]:
+            out.append({"kind": "rebin_perm", "src": src, "perm": list(perm), "_weight": 2})
+    # two-dimensional histograms (MultiIndex), target levels given in either order
+    two = [b for b in bs if len(b) == 3][:: (5 if q else 2)]
+    for a in two[:3 if q else 6]:
+        for b in two[:2 if q else 4]:
+            for ta, tb in (([0.0, 2.0, 4.0], [0.0, 1.0, 4.0]), ([0.0, 0.5, 1.0, 4.0], [0.0, 4.0])):
+                out.append({"kind": "rebin_2d", "a": a, "b": b, "ta": ta, "tb": tb, "_weight": 6})
     comp = []
     for a in bs:
         for b in bs:
@@ -205,6 +217,59 @@ def run(ctx, case):
                 ctx.claim(_close(_total(r), _total(vals), _total(vals)), "rebin.total", (src, k, list(r)))
                 outs.append(list(r))
             return outs
+        if kind == "rebin_perm":
+            src, perm = case["src"], case["perm"]
+            vals, h = _hist(ctx, src, "h")
+            hp = h.iloc[perm]
+            outs = []
+            for k in (1, 2, len(vals), 5):
+                ref = HI.rebin_histogram(h, k)
+                r = HI.rebin_histogram(hp, k)
+                ctx.signature((kind, tuple(src), tuple(perm), k))
+                ctx.claim(_close(_total(r), _total(vals), _total(vals)), "rebin.total", (src, perm, k, list(r)))
+                ok = list(r.index) == list(ref.index)
+                ctx.claim(ok, "rebin.source_order_independent", (list(r.index), list(ref.index)))
+                if ok:
+                    ctx.claim(_all_close(list(r), list(ref), _total(vals)), "rebin.source_order_independent", (list(r), list(ref)))
+                outs.append(list(r))
+            tgt = pd.IntervalIndex.from_breaks([GRID[0], GRID[-1]])
+            r = HI.rebin_histogram(hp, pd.IntervalIndex.from_breaks(src))
+            ctx.claim(_all_close(list(r), vals, _total(vals)), "rebin.identity", ("permuted source to its sorted binning", list(r)))
+            return outs
+        if kind == "rebin_2d":
+            a, b, ta, tb = case["a"], case["b"], case["ta"], case["tb"]
+            ia, ib = pd.IntervalIndex.from_breaks(a), pd.IntervalIndex.from_breaks(b)
+            idx = pd.MultiIndex.from_product([ia, ib], names=["range", "mean"])
+            vals = [ctx.real("h%d" % i) for i in range(len(idx))]
+            for v in vals:
+                ctx.assume(v >= 0)
+            h = pd.Series(_col(ctx, vals), index=idx, name="cycles")
+            ita, itb = pd.IntervalIndex.from_breaks(ta), pd.IntervalIndex.from_breaks(tb)
+            t_rm = pd.MultiIndex.from_product([ita, itb], names=["range", "mean"])
+            t_mr = pd.MultiIndex.from_product([itb, ita], names=["mean", "range"])
+            r1 = HI.rebin_histogram(h, t_rm)
+            r2 = HI.rebin_histogram(h, t_mr)
+            ctx.signature((kind, tuple(a), tuple(b), tuple(ta), tuple(tb)))
+            tot = _total(vals)
+            ctx.claim(_close(_total(r1), tot, tot), "rebin.total", ("2d", list(r1)))
+            ctx.claim(_close(_total(r2), tot, tot), "rebin.total", ("2d, target levels in the other order", list(r2)))
+            # per class: both ways of writing the target give the same result
+            d1 = {(k[0], k[1]): v for k, v in zip(r1.index, list(r1))}
+            names2 = list(r2.index.names)
+            d2 = {}
+            for k, v in zip(r2.index, list(r2)):
+                kk = dict(zip(names2, k))
+                d2[(kk["range"], kk["mean"])] = v
+            ok = set(d1) == set(d2)
+            ctx.claim(ok, "rebin.target_level_order_independent", (sorted(map(str, d1)), sorted(map(str, d2))))
+            if ok:
+                ctx.claim(sym_and(*[_close(d1[k], d2[k], tot) for k in d1]), "rebin.target_level_order_independent", (list(r1), list(r2)))
+            # the histogram's own binning is the identity
+            r3 = HI.rebin_histogram(h, idx)
+            d3 = {k: v for k, v in zip(r3.index, list(r3))}
+            ctx.claim(sym_and(*[_close(d3[k], v, tot) for k, v in zip(idx, vals)]) if set(d3) == set(idx) else False,
+                      "rebin.identity", ("2d", list(r3)))
+            return [list(r1), list(r2)]
         if kind == "compose":
             outs = []
             for a, b, c in case["triples"]:
